@@ -65,6 +65,7 @@ type gmod struct {
 	throws        bool
 	json          string
 	aliasTwo      bool // export {v as p, v as q}: one binding under two names
+	keepOrder     bool // the import statements keep their order (no shuffle)
 	unusedImports bool // fixed scenario only: leave imported bindings unreferenced
 }
 
@@ -196,6 +197,9 @@ func (g *ggraph) resolveFrom(m int, name string, set map[string]bool, fromIndire
 				g.nestedAmb = true
 			}
 			return r
+		}
+		if r.state == 1 && g.mods[t].kind != modESM {
+			r.via = m // read through this module's run-time re-export
 		}
 		if r.state == 1 {
 			if star.state == 0 {
@@ -407,6 +411,9 @@ func (g *ggraph) rebuildItems(md *gmod, r *Rng) {
 	for i := range md.stars {
 		md.items = append(md.items, gitem{"star", i})
 	}
+	if md.keepOrder {
+		return
+	}
 	// seeded shuffle: the order of import/export-from statements is the order of module requests
 	for i := len(md.items) - 1; i > 0; i-- {
 		j := r.Intn(i + 1)
@@ -420,7 +427,7 @@ type genOpts struct {
 	allowBad bool
 }
 
-var shapes = []string{"chain", "diamond", "cycle", "self", "starconflict", "random", "random", "mixed", "mixed"}
+var shapes = []string{"chain", "diamond", "cycle", "self", "starconflict", "random", "random", "mixed", "mixed", "starcycle", "starcycle"}
 
 func genGraph(r *Rng, o genOpts) *ggraph {
 	for {
@@ -440,10 +447,134 @@ func genGraph(r *Rng, o genOpts) *ggraph {
 		// reports a name that ECMA-262 makes ambiguous as found: no usable native oracle there
 		// ... and it keeps going after a conflict below another star.  Ambiguous names are therefore
 		// only generated in graphs without chains of export stars (the fixed graphs cover chains)
-		if !g.nestedAmb && !(anyAmb && (g.hasStarCycle() || g.hasStarChain())) {
+		// a name that conflicts with a CommonJS star export is ambiguous natively but statically
+		// bound by the linker (the run-time copy never overwrites): no ambiguity next to CommonJS stars;
+		// and the run-time copies of "export *" must happen in evaluation order (recorded finding E)
+		if !g.nestedAmb && !(anyAmb && (g.hasStarCycle() || g.hasStarChain() || g.hasCJSStar())) &&
+			(g.allowKnown || (g.cjsStarCopiesInOrder() && !g.entryStarsCJS())) {
 			return g
 		}
 	}
+}
+
+// an entry point that star-exports a CommonJS file has exports that only exist at run time; an
+// ESM-format bundle cannot declare them (inherent to static ES module exports), so the entry's
+// exports would differ by construction
+func (g *ggraph) entryStarsCJS() bool {
+	if g.mods[g.entry].kind != modESM {
+		return false
+	}
+	for _, c := range g.mods {
+		if c.kind != modESM && g.starReaches(g.entry, c.id, map[int]bool{}) {
+			return true
+		}
+	}
+	return false
+}
+
+func permOf(r *Rng, n int) []int {
+	out := make([]int, n)
+	for i := range out {
+		out[i] = i
+	}
+	for i := n - 1; i > 0; i-- {
+		j := r.Intn(i + 1)
+		out[i], out[j] = out[j], out[i]
+	}
+	return out
+}
+
+func (g *ggraph) hasCJSStar() bool {
+	for _, md := range g.mods {
+		for _, t := range md.stars {
+			if g.mods[t].kind != modESM {
+				return true
+			}
+		}
+	}
+	return false
+}
+
+// native evaluation position of the ES modules statically reachable from the entry
+func (g *ggraph) evalOrder() map[int]int {
+	pos := map[int]int{}
+	seen := map[int]bool{}
+	var visit func(int)
+	visit = func(x int) {
+		if seen[x] || g.mods[x].kind != modESM {
+			return
+		}
+		seen[x] = true
+		for _, d := range g.staticDeps(x) {
+			visit(d)
+		}
+		pos[x] = len(pos)
+	}
+	visit(g.entry)
+	return pos
+}
+
+// In a bundle the names an "export *" takes from a CommonJS file are copied at run time
+// (__reExport) when the re-exporting module's body runs, and copied again by every module
+// that star-exports that module when ITS body runs.  A module P shows such a name only if
+// along some star path P -> ... -> S -> cjs every module is evaluated after the next one.
+func (g *ggraph) cjsStarCopiesInOrder() bool {
+	if !g.hasCJSStar() {
+		return true
+	}
+	pos := g.evalOrder()
+	// provides[m] = set of CommonJS files whose names m receives in order
+	var ok func(p int, c int, seen map[int]bool) bool
+	ok = func(p int, c int, seen map[int]bool) bool {
+		if seen[p] {
+			return false
+		}
+		seen[p] = true
+		pp, has := pos[p]
+		if !has {
+			return false
+		}
+		for _, t := range g.mods[p].stars {
+			if t == c {
+				return true
+			}
+			if g.mods[t].kind != modESM {
+				continue
+			}
+			if tp, has := pos[t]; has && tp < pp && ok(t, c, seen) {
+				return true
+			}
+		}
+		return false
+	}
+	// every module that can reach a CommonJS star along star edges must receive it in order
+	for _, md := range g.mods {
+		if md.kind != modESM {
+			continue
+		}
+		for _, c := range g.mods {
+			if c.kind == modESM {
+				continue
+			}
+			if g.starReaches(md.id, c.id, map[int]bool{}) && !ok(md.id, c.id, map[int]bool{}) {
+				return false
+			}
+		}
+	}
+	return true
+}
+
+func (g *ggraph) starReaches(p, c int, seen map[int]bool) bool {
+	if seen[p] {
+		return false
+	}
+	seen[p] = true
+	for _, t := range g.mods[p].stars {
+		if t == c || (g.mods[t].kind == modESM && g.starReaches(t, c, seen)) {
+			return true
+		}
+	}
+	return false
 }
 
 func (g *ggraph) hasStarChain() bool {
@@ -485,7 +616,16 @@ func (g *ggraph) hasStarCycle() bool {
 func genGraph1(r *Rng, o genOpts) *ggraph {
 	g := &ggraph{}
 	g.shape = shapes[r.Intn(len(shapes))]
+	if g.shape == "starcycle" && o.allESM {
+		g.shape = "cycle"
+	}
 	n := r.Range(2, 5)
+	cyc := 0
+	if g.shape == "starcycle" {
+		// 0 = importer, 1..cyc = export-star cycle, then 1-2 CommonJS files, maybe one more ES module
+		cyc = r.Range(2, 3)
+		n = 1 + cyc + r.Range(1, 2) + r.Intn(2)
+	}
 	if g.shape == "random" || g.shape == "mixed" {
 		n = r.Range(3, o.maxMods)
 	}
@@ -506,6 +646,9 @@ func genGraph1(r *Rng, o genOpts) *ggraph {
 			}
 		}
 		if mixed && i == 0 && r.Chance(20) {
+			md.kind = modCJS
+		}
+		if cyc > 0 && i > cyc && (i <= cyc+1 || (i == cyc+2 && r.Bool())) {
 			md.kind = modCJS
 		}
 		g.mods = append(g.mods, md)
@@ -543,7 +686,7 @@ func genGraph1(r *Rng, o genOpts) *ggraph {
 			md.json = genJSON(r, 2)
 			continue
 		case modCJS:
-			md.cjsAssign = r.Chance(30)
+			md.cjsAssign = r.Chance(30) && cyc == 0
 			md.cjsEsm = !md.cjsAssign && r.Chance(15)
 		}
 		for _, nm := range namePool {
@@ -580,6 +723,8 @@ func genGraph1(r *Rng, o genOpts) *ggraph {
 		switch {
 		case tk == modESM && r.Chance(25):
 			ma.stars = append(ma.stars, b)
+		case tk == modCJS && !g.mods[b].cjsAssign && !o.allESM && r.Chance(20):
+			ma.stars = append(ma.stars, b) // export * from a CommonJS file: names resolved at run time
 		case tk == modESM && r.Chance(12) && !o.allESM:
 			ma.dyn = append(ma.dyn, b)
 		default:
@@ -607,6 +752,31 @@ func genGraph1(r *Rng, o genOpts) *ggraph {
 		edge(0, 0)
 		for i := 0; i+1 < n; i++ {
 			edge(i, i+1)
+		}
+	case "starcycle":
+		for i := 1; i <= cyc; i++ {
+			g.mods[i].stars = append(g.mods[i].stars, i%cyc+1)
+		}
+		sMem := r.Range(1, cyc)
+		for j := cyc + 1; j < n; j++ {
+			// the CommonJS files are star-exported by one cycle member (before or after its cycle
+			// edge: the statement order is shuffled); a remaining ES module by any member
+			if g.mods[j].kind == modCJS {
+				g.mods[sMem].stars = append(g.mods[sMem].stars, j)
+			} else if g.mods[j].kind == modESM {
+				k := r.Range(1, cyc)
+				g.mods[k].stars = append(g.mods[k].stars, j)
+			}
+		}
+		// the importer reads through every cycle member; it enters the cycle right after sMem, so
+		// that sMem is evaluated first and the run-time copies happen in order (see finding E)
+		first := sMem%cyc + 1
+		g.mods[0].keepOrder = true
+		g.mods[0].imports = append(g.mods[0].imports, gimport{target: first, form: "side"})
+		for _, i := range permOf(r, cyc) {
+			if i+1 != first {
+				g.mods[0].imports = append(g.mods[0].imports, gimport{target: i + 1, form: "side"})
+			}
 		}
 	case "starconflict":
 		for i := 1; i < n; i++ {
@@ -984,6 +1154,17 @@ func (g *ggraph) renderESM(md *gmod) string {
 			continue
 		}
 		fmt.Fprintf(&sb, "  $P(\"%d:late:%s\", () => %s);\n", id, im.local, g.readExpr(im.local))
+	}
+	for _, im := range md.imports {
+		if im.form != "ns" || g.hasThrow || g.mods[im.target].kind != modESM {
+			continue
+		}
+		// static property accesses on the namespace (the linker rewrites these into bindings)
+		for _, nm := range g.resolvable(im.target) {
+			if nm != "default" {
+				fmt.Fprintf(&sb, "  $P(\"%d:late:%s.%s\", () => $D(%s.%s));\n", id, im.local, nm, im.local, nm)
+			}
+		}
 	}
 	fmt.Fprintf(&sb, "  $bump%d();\n", id)
 	for _, im := range md.imports {
